@@ -180,23 +180,24 @@ def run(v, tier, seed):
             rnd = random.Random("%s-%s-%d" % (seed, name, mi))
             shapes = shapes_for(nl, tier, rnd)
             if thorough:
-                # every n on the pristine images; hostile variants (all of them) on two shapes, sampled n
-                for k, chunk in enumerate(vlib.chunks(shapes, 2)):
+                # every n on the pristine images; every hostile variant on two shapes (sliced into 3 runs), sampled n
+                for k, chunk in enumerate(vlib.chunks(shapes, 3)):
                     jobs.append(Job(S, stla, mi, chunk, True, 0, 0, sdir, "%s-m%d-p%d" % (name, mi, k)))
-                for r in range(2):
-                    jobs.append(Job(S, stla, mi, shapes[:2], False, 2, r, sdir, "%s-m%d-h%d" % (name, mi, r)))
+                for r in range(3):
+                    jobs.append(Job(S, stla, mi, shapes[:2], False, 3, r, sdir, "%s-m%d-h%d" % (name, mi, r)))
             else:
-                # sampled n; every 4th hostile variant (rotating with the seed) on the first shape
-                jobs.append(Job(S, stla, mi, shapes, False, 0, 0, sdir, "%s-m%d-p" % (name, mi)))
-                jobs.append(Job(S, stla, mi, shapes[:1], False, 4, seed % 4, sdir, "%s-m%d-h" % (name, mi)))
+                # sampled n; pristine images and every 8th hostile variant (rotating with the seed) of two shapes
+                jobs.append(Job(S, stla, mi, shapes, False, 8, seed % 8, sdir, "%s-m%d" % (name, mi)))
+    jobs.sort(key=lambda j: -(j.hvmod == 3) - viewpipe.count_levels(j.S["messages"][j.mi - 1]))   # long ones first
 
     with ThreadPoolExecutor(max_workers=2) as ex:
         fb = ex.submit(lambda: vlib.parallel([(p, c) for p in prep for c in configs],
-                                             lambda pc: (pc, build(pc[0][0], pc[0][1], pc[0][2], pc[0][4], pc[0][5], pc[1])), nproc=4))
-        fj = ex.submit(lambda: vlib.parallel(jobs, lambda j: j.run(), nproc=NPROC - 4))
+                                             lambda pc: (pc, build(pc[0][0], pc[0][1], pc[0][2], pc[0][4], pc[0][5], pc[1])), nproc=2))
+        fj = ex.submit(lambda: vlib.parallel(jobs, lambda j: j.run(), nproc=NPROC - 2))
         jobs = fj.result()
+        t_tlc = time.time() - t0
         built = fb.result()
-    t_tlc = time.time() - t0
+    t_build = time.time() - t0
 
     states = trans = nvec = nimg = 0
     per_schema = {}
@@ -240,7 +241,9 @@ def run(v, tier, seed):
                         "harness/dispatch does not compile against the generated headers:\n" + out[-2500:])
         elif p[1] in vecfiles:
             runs.append((p[1], cfg, out))
+    t1 = time.time()
     results = vlib.parallel(runs, lambda r: vlib.run_harness(r[2], ["replay", r[0], vecfiles[r[0]]], timeout=1500), nproc=NPROC)
+    v.part("timing", tlc_phase_s=round(t_tlc, 1), tlc_and_compile_phase_s=round(t_build, 1), replay_phase_s=round(time.time() - t1, 1))
     evals = replayed = 0
     per_class = {}
     late_total = late_write = 0
